@@ -186,8 +186,12 @@ func codeUnmarshalTable(c *core.Ctx, fd *ast.FuncDecl, info *types.Info, st map[
 	table := map[string]int64{}
 	cases, def := astx.SwitchCases(sws[0])
 	if def != nil {
-		c.Undecided("UnmarshalText/default", def.Pos(), "unexpected default clause")
-		return nil, nil
+		// a default clause may hold the numeric fallback (the switch then ends the function); it must not
+		// map the remaining texts to a named code
+		if _, n, _ := codeConstAssigned(info, def); n != 0 {
+			c.Violation("UnmarshalText/default", def.Pos(), "the default clause assigns a named code: every unknown text would decode to it")
+			return nil, nil
+		}
 	}
 	for _, cs := range cases {
 		// body: *c = K ; return nil
